@@ -7,7 +7,7 @@ from ..prims import requires, guard_strs, guarded_any, must_pass
 EXPLANATION = ('Structural necessary conditions of the receiver side: the acknowledgement built for an inbound PUBLISH/PUBREL carries '
                'that packet\'s identifier and is queued on every path; the QoS 2 event push is dominated by the not-seen test and '
                'followed by recording the identifier; lifetime (writers) of the inbound QoS 2 set; the enqueue table (acks to the '
-               'back of the high-priority queue, which is only ever popped at the front); events are appended and dispatched front to back.')
+               'back of the high-priority queue, which is only ever popped at the front); events are appended and dispatched front to back. Added in round 3: packet events are dispatched on every path after the engine handled the bytes. Added after the mutation sweeps: wire order starts at the decoder\'s output queue (shared with C03) and the engine handles decoded packets front to back.')
 ASSUMPTIONS = ['not decided: exactly-once surfacing across arbitrary duplicate/reconnect histories; "an answer is only lost because the connection ended first"']
 P = 'src/protocol.rs'
 PS = 'protocol::ProtocolState'
@@ -187,3 +187,40 @@ def run(ctx):
     ctx.ob(ok, 'handle_incoming_bytes dispatches the packet events after the engine call on every path (error or not)', 'dispatch|always', loc=hib.loc())
     rv_ = [show(e) for b, e in prims.ret_variants(hib)]
     ctx.ob(bool(rv_) and all(x in ('result', 'ProtocolState::handle_network_event(self.protocol_state, context)') or x.startswith('ProtocolState::handle_network_event(') for x in rv_), 'and returns the engine\'s own result (%s)' % rv_, 'dispatch|result', loc=hib.loc())
+    # ---- added after seed C05-4b: every decoded packet is handled or ends the connection; nothing is skipped
+    hp2_ = hid_.calls('ProtocolState::handle_packet')
+    nx2_ = [c for c in hid_.calls('Iterator::next', 'next') if show(c.arg(0)) == 'iter']
+    somes_ = prims.edge_nodes_matching(hid_, [r'^Iterator::next\(iter\) is Some$'])
+    ok_ = len(hp2_) == 1 and len(nx2_) == 1 and bool(somes_) and all(nx2_[0].bb not in hid_.reach([e_], avoid=[hp2_[0].bb]) and not (set(hid_.reach([e_], avoid=[hp2_[0].bb])) & set(prims.ok_blocks(hid_))) for e_ in somes_)
+    ctx.ob(ok_, 'for every decoded packet the loop either reaches handle_packet or returns an error (ending the connection); no path goes on to the next packet or returns Ok without handling this one', 'handle-every-packet', loc=hid_.loc(), rule='R-C05-1')
+    # ---- added after defect 18 (side note of the sub-agent of C05-4): dispatch order must survive the hand-off to the listener.
+    # The client calls its callback spawner once per event, in order; a spawner that creates a task (or thread) per event loses that
+    # order on a multi-threaded runtime.  Decided on the closures whose signature is (Arc<ClientEvent>, Arc<listener callback>).
+    SPAWN = re.compile(r'(^|::)(spawn|spawn_blocking|spawn_local|spawn_unchecked|spawn_scoped)$')
+    nsp = 0
+    for v_ in F.all_fns():
+        ls_ = v_.f.get('locals') or []
+        ar_ = [str(a.get('ty')) for a in ls_[1:1 + (v_.f.get('argc') or 0)]]
+        if len(ar_) != 3 or 'closure' not in ar_[0] or not ar_[1].endswith('Arc<client::ClientEvent>') or not re.match(r'^std::sync::Arc<dyn std::ops::Fn\(std::sync::Arc<client::ClientEvent>\)', ar_[2]):
+            continue
+        nsp += 1
+        reach_ = F.reachable_from([v_])
+        sp_ = sorted({'%s in %s' % (c.nfn.split('<')[0], short(r_.path)) for r_ in reach_ for c in r_.calls() if SPAWN.search(c.nfn.split('<')[0])})
+        ctx.ob(not sp_, '%s hands an event to a listener without creating a task or thread per event (%s)' % (short(v_.path, 3), sp_), 'listener-order|no-spawn-per-event|' + short(v_.path, 3), loc=v_.loc(), rule='R-C05-5')
+        sends_ = [c for r_ in reach_ for c in r_.calls() if re.search(r'(UnboundedSender|Sender|SyncSender)::send$', c.nfn.split('<')[0])]
+        inline_ = [c for r_ in reach_ for c in r_.calls() if c.nfn.split('<')[0].endswith('Fn::call')]
+        if sends_ and not inline_:
+            par_ = v_.f.get('parent')
+            sib_ = [F.view(k) if hasattr(F, 'view') else None for k in F.fns if F.fns[k].get('parent') == par_ and k != v_.path]
+            sib_ = [s_ for s_ in sib_ if s_ is not None]
+            cons_ = []
+            for s_ in sib_:
+                rs_ = F.reachable_from([s_])
+                if any(re.search(r'Receiver::recv$', c.nfn.split('<')[0]) for r_ in rs_ for c in r_.calls()) and any(c.nfn.split('<')[0].endswith('Fn::call') for r_ in rs_ for c in r_.calls()):
+                    cons_.append((s_, sorted({c.nfn.split('<')[0] for r_ in rs_ for c in r_.calls() if SPAWN.search(c.nfn.split('<')[0])})))
+            ctx.ob(len(cons_) == 1 and not cons_[0][1], '%s queues the event on a channel that exactly one task drains in order, calling the listener inline (%s)' % (short(v_.path, 3), [(short(s_.path, 3), sp2_) for s_, sp2_ in cons_]),
+                   'listener-order|single-consumer|' + short(v_.path, 3), loc=v_.loc(), rule='R-C05-5')
+        else:
+            ctx.ob(bool(inline_), '%s calls the listener inline' % short(v_.path, 3), 'listener-order|inline|' + short(v_.path, 3), loc=v_.loc(), rule='R-C05-5')
+    if ctx.config == 'all':
+        ctx.floor(nsp, 2, 'listener hand-off closures (one per driver)')
